@@ -27,9 +27,9 @@ EASY_T = ([[a, b] for a in range(5) for b in range(5)] + [[e, 0] for e in range(
 def bounds(tier):
     if tier == "quick":
         return {"max_pos": 3, "max_neg": 3, "easy": EASY_Q,
-                "grids": ["irregular", "dyadic", "int"], "targets": tc.EXTREME_TARGETS}
+                "grids": ["irregular", "dyadic", "int", "float32", "mixed"], "targets": tc.EXTREME_TARGETS}
     return {"max_pos": 5, "max_neg": 5, "easy": EASY_T,
-            "grids": ["irregular", "dyadic", "int", "negated", "ulp"], "targets": tc.EXTREME_TARGETS}
+            "grids": ["irregular", "dyadic", "int", "negated", "ulp", "float32", "mixed"], "targets": tc.EXTREME_TARGETS}
 
 
 def work(tier, seed):
@@ -41,10 +41,14 @@ def work(tier, seed):
         for kind in b["grids"]:
             if kind == "ulp" and sum(a + c for a, c in bl) > 8:
                 continue
-            items.append({"blocks": [list(x) for x in bl], "grid": kind, "scalars": False})
+            items.append({"blocks": [list(x) for x in bl], "grid": kind, "scalars": False,
+                          "small_easy": kind in ("float32", "mixed", "negated", "ulp")})
     return items
 
 
 def run(item, ctx, tier, seed):
     b = bounds(tier)
-    tc.explore(item, ctx, seed, [tuple(e) for e in b["easy"]], {"extremes"})
+    easy = [tuple(e) for e in b["easy"]]
+    if item.get("small_easy"):  # dtype / sign variants: the square of small counts only
+        easy = [e for e in easy if max(e) <= 2]
+    tc.explore(item, ctx, seed, easy, {"extremes"})
